@@ -86,7 +86,10 @@ func checkC04(c gen.ProgCase) Verdict {
 	if c.HasIJ {
 		ij = toJSONMap(c.IJ)
 	}
-	resp, err := theNode.do(jsRequest{Files: files, Calls: []jsCall{{Name: c.Entry, Data: toJSONMap(c.Data), IJ: ij}}})
+	resp, err := theNode.do(jsRequest{Files: append([]jsFile{jsCustomPrelude}, files...), Calls: []jsCall{{Name: c.Entry, Data: toJSONMap(c.Data), IJ: ij}}})
+	if err == nil && len(resp.Load) > 0 {
+		resp.Load = resp.Load[1:]
+	}
 	if err != nil {
 		return excluded("infra: " + err.Error())
 	}
@@ -136,7 +139,7 @@ func checkC04(c gen.ProgCase) Verdict {
 		if p := catch(func() {
 			rd := cb.tofu.NewRenderer(c.Entry).WithMessages(msgs)
 			if c.HasIJ {
-				rd.Inject(toDataMap(c.IJ))
+				rd = rd.Inject(toDataMap(c.IJ))
 			}
 			gerr = rd.Execute(&gbuf, toDataMap(c.Data))
 		}); p != nil || gerr != nil {
@@ -146,7 +149,10 @@ func checkC04(c gen.ProgCase) Verdict {
 		if err != nil {
 			return bad(true, "%v\n%s", err, showSources(names, srcs))
 		}
-		mresp, err := theNode.do(jsRequest{Files: mfiles, Plural: "one-other", Calls: []jsCall{{Name: c.Entry, Data: toJSONMap(c.Data), IJ: ij}}})
+		mresp, err := theNode.do(jsRequest{Files: append([]jsFile{jsCustomPrelude}, mfiles...), Plural: "one-other", Calls: []jsCall{{Name: c.Entry, Data: toJSONMap(c.Data), IJ: ij}}})
+		if err == nil && len(mresp.Load) > 0 {
+			mresp.Load = mresp.Load[1:]
+		}
 		if err != nil {
 			return excluded("infra: " + err.Error())
 		}
@@ -182,7 +188,7 @@ func checkC04(c gen.ProgCase) Verdict {
 }
 
 func genC04(t *rapid.T) gen.ProgCase {
-	g := &gen.G{T: t, P: gen.Profile{Common: true, Unicode: true, HTMLChars: true, Directives: true}}
+	g := &gen.G{T: t, P: gen.Profile{Common: true, Unicode: true, HTMLChars: true, Directives: true, Custom: rapid.IntRange(0, 3).Draw(t, "custom") == 0}}
 	return gen.GenProgram(g, gen.ProgOpts{MaxTemplates: scale(4, 6), MaxDepth: scale(3, 4), MaxCmds: 4, ExprDepth: 2, PosWeight: 6, ScopeWeight: 8, CallWeight: 8, MinTemplates: 1, NumStress: 6})
 }
 
